@@ -14,6 +14,7 @@
 package frugal
 
 import (
+	"bytes"
 	"encoding/binary"
 	"errors"
 	"fmt"
@@ -320,8 +321,14 @@ func (v *v0ProtocolMarshaler) unmarshalHeaders(reader io.Reader) (map[string]str
 			fmt.Sprintf("frugal: error reading protocol headers in unmarshalHeaders reading header size: %s", err))
 	}
 	size := int32(binary.BigEndian.Uint32(buff))
-	buff = make([]byte, size)
-	if _, err := io.ReadFull(reader, buff); err != nil {
+	if size < 0 {
+		return nil, thrift.NewTProtocolExceptionWithType(thrift.INVALID_DATA,
+			fmt.Errorf("frugal: invalid v0 header size %d", size))
+	}
+	// The size comes from the peer: read what is actually there instead of
+	// allocating the announced amount up front.
+	headerBuff := new(bytes.Buffer)
+	if _, err := io.CopyN(headerBuff, reader, int64(size)); err != nil {
 		if e, ok := err.(thrift.TTransportException); ok && e.TypeId() == TRANSPORT_EXCEPTION_END_OF_FILE {
 			return nil, err
 		}
@@ -329,7 +336,7 @@ func (v *v0ProtocolMarshaler) unmarshalHeaders(reader io.Reader) (map[string]str
 			fmt.Sprintf("frugal: error reading protocol headers in unmarshalHeaders reading headers: %s", err))
 	}
 
-	return v.readPairs(buff, 0, size)
+	return v.readPairs(headerBuff.Bytes(), 0, size)
 }
 
 // unmarshalHeadersFromFrame reads serialized headers from the byte slice into
@@ -341,7 +348,7 @@ func (v *v0ProtocolMarshaler) unmarshalHeadersFromFrame(frame []byte) (map[strin
 			fmt.Errorf("frugal: invalid v0 frame size %d", len(frame)))
 	}
 	size := int32(binary.BigEndian.Uint32(frame))
-	if size > int32(len(frame[4:])) {
+	if size < 0 || size > int32(len(frame[4:])) {
 		return nil, thrift.NewTProtocolExceptionWithType(thrift.INVALID_DATA,
 			fmt.Errorf("frugal: v0 frame size %d does not match actual size %d", size, len(frame[4:])))
 	}
@@ -395,9 +402,13 @@ func (v *v0ProtocolMarshaler) readPairs(buff []byte, start, end int32) (map[stri
 	i := start
 	for i < end {
 		// Read header name.
+		if i+4 > end {
+			return nil, thrift.NewTProtocolExceptionWithType(thrift.INVALID_DATA,
+				errors.New("frugal: invalid v0 protocol header name"))
+		}
 		nameSize := int32(binary.BigEndian.Uint32(buff[i : i+4]))
 		i += 4
-		if i > end || i+nameSize > end {
+		if nameSize < 0 || i > end || i+nameSize > end || i+nameSize < i {
 			return nil, thrift.NewTProtocolExceptionWithType(thrift.INVALID_DATA,
 				errors.New("frugal: invalid v0 protocol header name"))
 		}
@@ -405,9 +416,13 @@ func (v *v0ProtocolMarshaler) readPairs(buff []byte, start, end int32) (map[stri
 		i += nameSize
 
 		// Read header value.
+		if i+4 > end {
+			return nil, thrift.NewTProtocolExceptionWithType(thrift.INVALID_DATA,
+				errors.New("frugal: invalid v0 protocol header value"))
+		}
 		valueSize := int32(binary.BigEndian.Uint32(buff[i : i+4]))
 		i += 4
-		if i > end || i+valueSize > end {
+		if valueSize < 0 || i > end || i+valueSize > end || i+valueSize < i {
 			return nil, thrift.NewTProtocolExceptionWithType(thrift.INVALID_DATA,
 				errors.New("frugal: invalid v0 protocol header value"))
 		}
